@@ -111,6 +111,9 @@ def run(ctx):
         else:
             ctx.cov["layers"].setdefault("oracle timers", {})["run%d" % s] = out.strip()
     ctx.count("oracle timers", runs * 310, runs * 310, samples=[{"cmd": "c11_timers %d 250 60" % (ctx.seed * 100)}])
+    # the count clause under overrun: microsecond timers whose handler lags, the manager held inside _dispatch_timers_run now and then
+    from tracecheck import run_traces
+    run_traces(ctx, "c11_fast", [[ctx.seed * 10 + i, 4000 if ctx.thorough else 1200] for i in range(3 if ctx.thorough else 2)], None, None, "L-api overrun counts", "fast", timeout=300)
     ctx.cov["rule"] = ("heap: seeded random insert/remove/update histories on the real heap (live populations of 2 to 3000 timers, segment grow/shrink), every slot compared after "
                        "every operation with the proved functions; compute_missed: generated (target, interval, now, prev) incl. clamp and one-shot cases; oracle: populations of "
                        "dispatch_after blocks and timer sources on the three clocks with cancel / set_timer / suspend churn. distinct_nontrivial counts operations / inputs / timers")
